@@ -48,3 +48,19 @@ package vgirpc
 //@ func (*HttpServer).handleIntrospectToken
 //@   property C22
 //@   at call * except (*HttpServer).authenticate, writeIntrospectRefusal#1, slog.Debug assert [gate] admitted(r)
+
+// The route table. Every handler handed to the server's mux anywhere in the package is one of the
+// five guarded RPC / control handlers — each of which is under contract for this property (no
+// call before authenticate admitted the request) — or one of the routes the property lists as
+// reachable without authentication: health, the OAuth metadata document, the PKCE login routes
+// (callback, logout, token proxy), the HTML pages (described, landing, not-found; behind the
+// PKCE page wrapper when PKCE is on) and the idempotent session-delete route; operator-registered
+// custom routes enter through (*HttpServer).Handle only. A new route that is none of these fails
+// the obligation `routetable/1` (a guarded handler must bring its own contract).
+//
+//@ routetable [C22] register (*http.ServeMux).HandleFunc, (*http.ServeMux).Handle
+//@     guarded (*HttpServer).handleUnary, (*HttpServer).handleStreamInit, (*HttpServer).handleStreamExchange, (*HttpServer).handleUploadURLInit, (*HttpServer).handleIntrospectToken
+//@     public (*HttpServer).handleHealth, (*HttpServer).handleOAuthWellKnown, (*HttpServer).handleOAuthCallback, (*HttpServer).handleOAuthLogout, (*HttpServer).handleOAuthTokenProxy,
+//@         (*HttpServer).handleDescribePage, (*HttpServer).handleLandingPage, (*HttpServer).handleNotFound, (*HttpServer).handleStickyDelete
+//@     wrappers (*HttpServer).wrapPageWithPkce
+//@     custom (*HttpServer).Handle
